@@ -121,6 +121,24 @@ def edge_grid():
                 out.append({"df": {"cols": ["id", "c0", "c1"], "rows": rows}, "body": {"text_font_size": sizes},
                             "page": {"nrow": nrow, "col_width": 6.0}, "headers": [{"text": ["H id", "H c0", "H c1"]}],
                             "kind": "single", "strategy": "plain", "header_mode": "explicit"})
+    out.extend(wide_glyph_docs())
+    return out
+
+
+def wide_glyph_docs():
+    """Rows whose cell is a short run of one wide glyph (several are wider than one em) just over the column width: two
+    lines each although the character count is small."""
+    out = []
+    cw = 3.0
+    for font, size, ch in ((1, 9, "\u042e"), (1, 9, "\u01c4"), (1, 10, "\u0460"), (4, 9, "@"), (4, 10, "\u2116"), (9, 12, "W"),
+                           (1, 12, "\u2014"), (8, 9, "\u00bd"), (1, 9, "\u2030"), (4, 9, "M")):
+        n = 1
+        while get_string_width(ch * n, font=font, font_size=size) < 1.2 * cw and n < 400:
+            n += 1
+        rows = [[f"#{i}#", ch * n] for i in range(12)]
+        out.append({"df": {"cols": ["id", "c0"], "rows": rows}, "body": {"text_font": font, "text_font_size": size},
+                    "page": {"nrow": 10, "col_width": 2 * cw}, "headers": [{"text": ["H id", "H c0"]}],
+                    "kind": "single", "strategy": "plain", "header_mode": "explicit"})
     return out
 
 
@@ -170,5 +188,5 @@ def signature(spec, result):
 
 def run(ctx):
     common.TIE_EXCUSES["value"] = True
-    return common.run_docprop(ctx, "c03", generate, signature, extra_fn=extra_fn, n_quick=285, n_thorough=4000,
+    return common.run_docprop(ctx, "c03", generate, signature, extra_fn=extra_fn, n_quick=295, n_thorough=4000,
                               shrink_steps=120)
